@@ -218,6 +218,9 @@ class Ctx:
             raise AnalysisError("mentions(): needle is not a single atom")
         return a in self.all_atoms(r)
 
+    def mentions_or_eq(self, r, other):
+        return self.eq(r, other) or self.mentions(r, other)
+
     def subst(self, r, mapping):
         """replace atoms (by id) with terms; rebuilds atoms whose arguments change"""
         cache = {}
@@ -299,6 +302,8 @@ class Ctx:
             return repr(head[1])
         if k == "const":
             return repr(head[1])
+        if k in ("attr", "sub") and args and args[0].single_atom() is None and not args[0].is_const():
+            sa[0] = f"({sa[0]})"
         if k == "attr":
             return f"{sa[0]}.{head[1]}"
         if k == "sub":
@@ -473,7 +478,9 @@ class Evaluator:
                     uniq.append(t)
             if len(uniq) == 1:
                 return uniq[0]
-            return self.ctx.mk(("phi",), uniq)
+            types = {self.ctx.type_of(u) for u in uniq}
+            typ = types.pop() if len(types) == 1 else None
+            return self.ctx.mk(("phi",), uniq, typ)
         # closure variable of an enclosing function
         if self.parent is not None and (name in self.parent._local_names or name in self.parent._params):
             return self.parent._name(name, self.parent_at, None)
